@@ -54,28 +54,28 @@ func usage() {
 
 // stdFlags are the flags shared by all differential subcommands.
 type stdFlags struct {
-	fs    *flag.FlagSet
-	seed  *uint64
-	n     *int
-	ops   *string
-	impl  *string
-	stats *string
-	tier  *string
-	repo  *string
+	fs     *flag.FlagSet
+	seed   *uint64
+	n      *int
+	ops    *string
+	impl   *string
+	stats  *string
+	tier   *string
+	repo   *string
 	replay *string
 }
 
 func newStdFlags(name string) *stdFlags {
 	fs := flag.NewFlagSet(name, flag.ContinueOnError)
 	return &stdFlags{
-		fs:    fs,
-		seed:  fs.Uint64("seed", 1, "PRNG seed"),
-		n:     fs.Int("n", 1000, "number of cases"),
-		ops:   fs.String("ops", "ops.txt", "request lines output"),
-		impl:  fs.String("impl", "impl.txt", "implementation responses output"),
-		stats: fs.String("stats", "stats.json", "input distribution output"),
-		tier:  fs.String("tier", "quick", "quick|thorough"),
-		repo:  fs.String("repo", "/repo", "path of the avo source tree"),
+		fs:     fs,
+		seed:   fs.Uint64("seed", 1, "PRNG seed"),
+		n:      fs.Int("n", 1000, "number of cases"),
+		ops:    fs.String("ops", "ops.txt", "request lines output"),
+		impl:   fs.String("impl", "impl.txt", "implementation responses output"),
+		stats:  fs.String("stats", "stats.json", "input distribution output"),
+		tier:   fs.String("tier", "quick", "quick|thorough"),
+		repo:   fs.String("repo", "/repo", "path of the avo source tree"),
 		replay: fs.String("replay", "", "file with request lines to replay instead of generating"),
 	}
 }
